@@ -37,11 +37,11 @@ def pairs(run, n, pid="C05"):
 
 
 def correspondence(run):
-    rc.correspond(run, pairs(run, run.n(900, 15000)), rc.describe, "C05")
+    rc.correspond(run, pairs(run, run.n(2500, 25000)), rc.describe, "C05")
 
 
 def oracle(run, deep):
-    n = run.n(1500, 30000) * (3 if deep else 1)
+    n = run.n(3000, 40000) * (3 if deep else 1)
     for i in range(n):
         fam = rc.gen_family(run.rng) if i % 3 else rc.gen_family_dense(run.rng)
         try:
